@@ -121,6 +121,92 @@ func (ps PathSpec) ExitStates(g *cfg.CFG, entry PState) map[*cfg.Block]map[PStat
 	return exits
 }
 
+// StatesFrom propagates from the entry of start and returns the states with which each stop block is
+// entered (stop blocks are not processed) and the states at exit blocks (no successors). Entering
+// start again counts as reaching a stop block when reenter is true (a loop without a condition block).
+func (ps PathSpec) StatesFrom(start *cfg.Block, entry PState, stop map[*cfg.Block]bool, reenter bool) (atStop map[*cfg.Block]map[PState]bool, atExit map[*cfg.Block]map[PState]bool) {
+	type item struct {
+		b *cfg.Block
+		s PState
+	}
+	seen := map[item]bool{}
+	atStop = map[*cfg.Block]map[PState]bool{}
+	atExit = map[*cfg.Block]map[PState]bool{}
+	add := func(m map[*cfg.Block]map[PState]bool, b *cfg.Block, s PState) {
+		if m[b] == nil {
+			m[b] = map[PState]bool{}
+		}
+		m[b][s] = true
+	}
+	first := true
+	work := []item{{start, entry}}
+	for len(work) > 0 {
+		it := work[len(work)-1]
+		work = work[:len(work)-1]
+		if !first && (stop[it.b] || (reenter && it.b == start)) {
+			add(atStop, it.b, it.s)
+			continue
+		}
+		first = false
+		if seen[it] {
+			continue
+		}
+		seen[it] = true
+		s := it.s
+		if ps.EdgeA != nil {
+			s.A = sat(s.A, ps.EdgeA(it.b))
+		}
+		for _, n := range it.b.Nodes {
+			if ps.SkipComm[n] {
+				continue
+			}
+			if ps.CountA != nil {
+				s.A = sat(s.A, ps.CountA(n))
+			}
+			if ps.CountB != nil {
+				s.B = sat(s.B, ps.CountB(n))
+			}
+			if ps.FlagObj != nil {
+				s.Flag = ps.flagAfter(n, s.Flag)
+			}
+		}
+		if len(it.b.Succs) == 0 {
+			add(atExit, it.b, s)
+			continue
+		}
+		succs := it.b.Succs
+		if len(succs) == 2 && ps.FlagObj != nil && len(it.b.Nodes) > 0 && s.Flag != 0 {
+			if e, ok := it.b.Nodes[len(it.b.Nodes)-1].(ast.Expr); ok {
+				neg := false
+				for {
+					e = ast.Unparen(e)
+					u, isNot := e.(*ast.UnaryExpr)
+					if !isNot || u.Op != token.NOT {
+						break
+					}
+					neg = !neg
+					e = u.X
+				}
+				if id, ok := e.(*ast.Ident); ok && ps.Info.Uses[id] == ps.FlagObj {
+					val := s.Flag == 1
+					if neg {
+						val = !val
+					}
+					if val {
+						succs = succs[:1]
+					} else {
+						succs = succs[1:]
+					}
+				}
+			}
+		}
+		for _, sc := range succs {
+			work = append(work, item{sc, s})
+		}
+	}
+	return atStop, atExit
+}
+
 func (ps PathSpec) flagAfter(n ast.Node, cur int8) int8 {
 	as, ok := n.(*ast.AssignStmt)
 	if !ok {
